@@ -125,7 +125,22 @@ func VerifHarness_C04_recover() {
 	early := r.appMessage(S)
 	r.s.fixMsgIn(r.s, early)
 	r.pump()
-	c04CheckRequest(r.drain(), bs, T, S, chunk, "recover-first")
+	first := r.drain()
+	c04CheckRequest(first, bs, T, S, chunk, "recover-first")
+	// oracle-side model of the chunk in progress, derived from what was put on the wire
+	modelChunkEnd := 0
+	c04Track := func(ws []verifWire) {
+		for i := range ws {
+			if ws[i].is("2") {
+				if e, ok := ws[i].getInt(16); ok && e != c04EndMarker(bs) {
+					modelChunkEnd = e
+				} else {
+					modelChunkEnd = 0
+				}
+			}
+		}
+	}
+	c04Track(first)
 	highest := S
 	kept := []int{S}
 	K := verifBound(3, 4)
@@ -138,7 +153,8 @@ func VerifHarness_C04_recover() {
 		if p, isP := r.s.State.(pendingTimeout); isP {
 			st0, recovering = p.sessionState.(resendState)
 		}
-		curEnd := st0.currentResendRangeEnd
+		curEnd := modelChunkEnd
+		_ = st0.currentResendRangeEnd
 		switch verifConc(ndInt("event", 0, 5)) {
 		case 5:
 			// the peer's live traffic may itself contain a gap fill (it skips administrative numbers): it arrives
@@ -211,6 +227,7 @@ func VerifHarness_C04_recover() {
 			}
 		}
 		verifAssert(nreq <= 1, "recover-at-most-one-resendrequest-per-event")
+		c04Track(ws)
 	}
 	r.checkDeliveries("recover")
 	// if every missing number has arrived, everything kept was delivered and the session is back to normal
